@@ -63,7 +63,9 @@ def numbers_blob(r, n=None):
         vals = [r.randrange(4) for _ in range(n)]
     hexy = r.random() < 0.3
     sep = r.choice([b",", b", ", b",\n", b",  "])
-    return sep.join((b"0x%02x" % (v % 256)) if hexy and r.random() < 0.8 else str(v).encode() for v in vals)
+    pre = r.choice([b"0x", b"0x", b"0X"])
+    fmt = r.choice([b"%02x", b"%02X"])
+    return sep.join((pre + fmt % (v % 256)) if hexy and r.random() < 0.8 else str(v).encode() for v in vals)
 
 
 def g_xorbytes(spec, r):
@@ -319,9 +321,28 @@ def g_echo(spec, r):
         yield "echo", r.choice([b" ", b"\n", b" ; ", b" , "]).join(parts), (None if r.random() < 0.6 else r.choice([1, 2, 3, 4]))
 
 
+def g_expand(spec, r):
+    """Decodings whose value is LONGER than the text they replace and carries several plain indicators."""
+    while True:
+        ioc = r.choice([netgen.domain(r), netgen.ipv4(r), b"http://" + netgen.domain(r) + b"/a", netgen.email(r)])
+        n = r.randint(2, 5)
+        subj = b" ".join([b"x"] * n) if r.random() < 0.6 else b" x ".join(netgen.label(r) for _ in range(n))
+        k = r.randrange(4)
+        if k == 0:
+            e = b'"' + subj + b'".replace("x","' + ioc + b'")'
+        elif k == 1:
+            e = b'Replace("' + subj + b'", "x", "' + ioc + b'")'
+        elif k == 2:
+            e = b"'" + subj + b"' -replace 'x','" + ioc + b"'"
+        else:
+            e = b'"' + subj + b'".replace(/x/g, "' + ioc + b'")'
+        wrap = r.choice([(b"", b""), (b"zz ", b" tail"), (b"CreateObject(", b")"), (b"cmd /c echo ", b"")])
+        yield "expand", wrap[0] + e + wrap[1], (None if r.random() < 0.7 else r.choice([1, 2, 3]))
+
+
 GENERATORS = {
     "skel": g_skel, "xor": g_xor, "cmd": g_cmd, "pe": g_pe, "xorbytes": g_xorbytes, "matryoshka": g_matryoshka,
-    "nesting": g_nesting, "seedmut": g_seedmut, "soup": g_soup, "large": g_large, "repeat": g_repeat, "url": g_url, "ioc": g_ioc, "layer": g_layer, "ctxdec": g_ctxdec, "nest": g_nest, "repeatunit": g_repeatunit, "echo": g_echo,
+    "nesting": g_nesting, "seedmut": g_seedmut, "soup": g_soup, "large": g_large, "repeat": g_repeat, "url": g_url, "ioc": g_ioc, "layer": g_layer, "ctxdec": g_ctxdec, "nest": g_nest, "repeatunit": g_repeatunit, "echo": g_echo, "expand": g_expand,
 }
 
 
